@@ -11,6 +11,7 @@ variables and the same content (pmc.ref.interp.content: triples after one
 model deinversion, constants by written form, edge/attribute status).
 """
 
+import copy
 import itertools
 
 from pmc.domains import graphs as G
@@ -141,7 +142,11 @@ def check(case, ctx):
             for top in variables:
                 g = Graph(list(order), top=g0.top, epidata=g0.epidata)
                 want = RI.content(triples, top, rm)
-                if not _roundtrip(ctx, pm, rm, 'DEFAULT', g, top, want, 'marked'):
+                ok = _roundtrip(ctx, pm, rm, 'DEFAULT', g, top, want, 'marked')
+                if ok:
+                    # the same graph after copy.deepcopy (as pickling, | and - produce): markers equal, not identical
+                    ok = _roundtrip(ctx, pm, rm, 'DEFAULT', copy.deepcopy(g), top, want, 'marked+deepcopy')
+                if not ok:
                     ctx.fails[-1]['case'] = {'t': case['t'], 'order': [list(x) for x in order], 'top': top}
                     return
         ctx.nontrivial += 1
